@@ -32,7 +32,7 @@ fn header(prop: &str) -> &'static str {
         "C16" => "From TSG Require Import Model.Globals.\n",
         "C19" => "From TSG Require Import Model.Cli.\n",
         "C10" | "C10rx" => "From TSG Require Import Model.ScanOps.\n",
-        "C14" => "From TSG Require Import Model.C14Obs.\n",
+        "C14" => "From TSG Require Import Model.C14TextObs.\n",
         "C13" | "C13D" => "From TSG Require Import Model.Stdlib.\n",
         "C12" => "From TSG Require Import Model.HashOrder.\n",
         "C06" => "From TSG Require Import Model.Checker.\n",
